@@ -138,11 +138,39 @@ TReadChars ==
                ELSE Append(bad, [l |-> l, op |-> "read_chars", why |-> {"read_chars"}])
   /\ UNCHANGED <<st, heap>>
 
+\* io::read_chars with counts beyond 2^31 on a virtual stream: wide numbers are limbs (q, r) meaning
+\* q times 2^20 plus r, since TLC integers are 32-bit; the character at stream position p is WCharAt(p).
+WNorm(q, r) == [q |-> q + r \div 1048576, r |-> r % 1048576]
+WLe(a, b) == a.q < b.q \/ (a.q = b.q /\ a.r <= b.r)
+WAddSmall(a, k) == WNorm(a.q, a.r + k)              \* k >= 0 small
+WSubSmall(a, k) == IF a.r >= k THEN [q |-> a.q, r |-> a.r - k] ELSE [q |-> a.q - 1, r |-> a.r + 1048576 - k]
+WMod(a, m) == a - m * (a \div m)
+WCharAt(p) ==
+  LET pm == WMod(WMod(p.q, 251) * WMod(1048576, 251) + p.r, 251)
+  IN WMod(WMod(pm * 7 + 3, 251), 120) + 1
+TReadCharsBig ==
+  /\ T[l].e = "read_chars_big"
+  /\ LET ev == T[l]
+         count == [q |-> ev.count_q, r |-> ev.count_r]
+         avail == [q |-> ev.avail_q, r |-> ev.avail_r]
+         endp == WNorm(count.q, count.r + ev.skip)
+         fits == WLe(endp, avail)
+         good == /\ ev.size_q = count.q
+                 /\ ev.size_r = count.r
+                 /\ ev.pos_q = endp.q
+                 /\ ev.pos_r = endp.r
+                 /\ ev.head = [i \in 1..4 |-> WCharAt(WAddSmall([q |-> 0, r |-> ev.skip], i - 1))]
+                 /\ ev.tail = [i \in 1..4 |-> WCharAt(WAddSmall(WSubSmall(endp, 4), i - 1))]
+         ok == ev.oom \/ (ev.some = fits /\ (fits => good))
+     IN bad' = IF ok THEN bad
+               ELSE Append(bad, [l |-> l, op |-> "read_chars", why |-> {"read_chars:big-count"}])
+  /\ UNCHANGED <<st, heap>>
+
 TNext ==
   /\ l <= Len(T)
   /\ l' = l + 1
   /\ hist' = hist
-  /\ (TReset \/ TOp \/ TEnd \/ TReadChars)
+  /\ (TReset \/ TOp \/ TEnd \/ TReadChars \/ TReadCharsBig)
 
 TSpec == TInit /\ [][TNext]_tvars
 
